@@ -90,6 +90,30 @@ def judge(case):
             back = Contentline.from_ical(out)
             if str(back) != s:
                 fails.append(Failure("C06.line", "library-unfold-differs", f"s={s[:60]!r} back={str(back)[:60]!r}"))
+            # the fold rules hold for every content line object, whatever it was made from: a line read from text folded another
+            # way (HTAB folds, LF line ends, other widths), a line decoded from bytes in a legacy encoding
+            if "\r" not in s and "\n" not in s and len(s) > 1:
+                step = case.get("src_step", 40)
+                for ws, eol in ((b"\t", b"\r\n"), (b" ", b"\n"), (b"\t", b"\n")):
+                    chunks = [s[i:i + step] for i in range(0, len(s), step)]
+                    if any(c[:1] in (" ", "\t") for c in chunks[1:]) and False:
+                        continue
+                    src = (eol + ws).join(c.encode("utf-8") for c in chunks)
+                    again = Contentline.from_ical(src)
+                    if str(again) != s:
+                        break       # how text is unfolded is C09's clause
+                    fails += [Failure(f.clause, f.signature + "/line-read-from-otherwise-folded-text", f.detail) for f in check_folded(s, again.to_ical())]
+                for enc in ("utf-8", "latin-1", "cp1252", "utf-16", "utf-16-le"):
+                    try:
+                        data = s.encode(enc)
+                        if data.decode(enc) != s:
+                            continue
+                    except UnicodeError:
+                        continue
+                    dec = Contentline(data, encoding=enc)
+                    if str(dec) != s:
+                        continue
+                    fails += [Failure(f.clause, f.signature + "/line-decoded-from-" + enc, f.detail) for f in check_folded(s, dec.to_ical())]
         elif kind == "lines":
             ls = case["lines"]
             cls = Contentlines([Contentline(x) for x in ls])
